@@ -9,7 +9,7 @@ HERE = os.path.dirname(os.path.dirname(os.path.abspath(__file__)))
 sys.path.insert(0, os.path.join(HERE, "tools"))
 import driver
 
-FAMILIES = ["F1", "F1h", "F1w", "F2", "F2p", "F3", "F3m", "F4", "F5", "F6", "F6c", "F7"]
+FAMILIES = ["F1", "F1h", "F1w", "F1o", "F1s", "F2", "F2f", "F2h", "F2s", "F2p", "F2q", "F3", "F3m", "F4", "F4g", "F4t", "F4u", "F5", "F6", "F6c", "F6f", "F6k", "F7"]
 
 
 def run_range(fam, seed, lo, hi):
